@@ -7,9 +7,12 @@ package wkm
 import (
 	"fmt"
 	"sort"
+	"strings"
 
 	"github.com/sdcio/yang-parser/parse"
 	"github.com/sdcio/yang-parser/schema"
+
+	"verif/harness/internal/schemadump"
 )
 
 // Call is one hook invocation seen by the Recorder.
@@ -93,8 +96,8 @@ type Recorder struct {
 	FailName string
 	MustExt  string // replacement expression returned by ExtendMust ("" = none)
 	Calls    []Call
-	Types    []schema.Type // the type handed to the n-th ExtendType call (by Seq)
-	TypeSeq  []int
+	PNodes   []parse.Node // per call: the parse node that owns it (node hooks: p; must: the owner p; type: nil)
+	TreeOf   map[int]int  // id of a model wrapper -> id of the tree wrapper it was built from
 	next     int
 }
 
@@ -113,7 +116,8 @@ func (r *Recorder) rec(hook string, p parse.Node, name string, kids []schema.Nod
 			c.Built++
 		}
 	}
-	if r.FailHook == hook && (r.FailName == name || r.FailName == arg) {
+	r.PNodes = append(r.PNodes, p)
+	if r.FailHook == hook && r.FailName == arg {
 		r.Calls = append(r.Calls, c)
 		return 0, fmt.Errorf("wk: hook %s refuses %s", hook, name)
 	}
@@ -138,6 +142,12 @@ func (r *Recorder) ExtendModel(p parse.Node, m schema.Model, t schema.Tree) (sch
 	id, err := r.rec("model", p, m.Identifier(), []schema.Node{t})
 	if err != nil || id == 0 {
 		return m, err
+	}
+	if w, ok := t.(Wrapped); ok {
+		if r.TreeOf == nil {
+			r.TreeOf = map[int]int{}
+		}
+		r.TreeOf[id] = w.WkID()
 	}
 	return &wModel{m, id}, nil
 }
@@ -211,8 +221,7 @@ func (r *Recorder) ExtendType(p parse.Node, base schema.Type, t schema.Type) (sc
 		c.Base = base.Name().Local
 	}
 	r.Calls = append(r.Calls, c)
-	r.Types = append(r.Types, t)
-	r.TypeSeq = append(r.TypeSeq, c.Seq)
+	r.PNodes = append(r.PNodes, nil)
 	if r.FailHook == "type" && r.FailName == arg {
 		return nil, fmt.Errorf("wk: hook type refuses %s", arg)
 	}
@@ -223,7 +232,8 @@ func (r *Recorder) ExtendMust(p parse.Node, m parse.Node) (string, error) {
 	pst, parg := pstmt(p)
 	c := Call{Seq: len(r.Calls) + 1, Hook: "must", Stmt: st, Arg: arg, Name: parg, Base: pst}
 	r.Calls = append(r.Calls, c)
-	if r.FailHook == "must" && r.FailName == parg {
+	r.PNodes = append(r.PNodes, p)
+	if r.FailHook == "must" && r.FailName == arg {
 		return "", fmt.Errorf("wk: hook must refuses %s", parg)
 	}
 	return r.MustExt, nil
@@ -241,13 +251,12 @@ func (r *Recorder) ExtendOpdArgument(p parse.Node, x schema.OpdArgument) (schema
 	return x, nil
 }
 
-// Placed is a wrapper found in the compiled model set: where it is.
+// Placed is a schema object found in the compiled model set: where it is (path in the terms of
+// spec/SchemaWalkExt.tla) and which wrapper it is (Id 0: an object no hook returned).
 type Placed struct {
 	Id   int      `json:"id"`
 	Kind string   `json:"kind"`
-	Path []string `json:"path"` // data tree: names from the top, choices and cases included; rpc / notification
-	// trees are rooted at "rpc:<name>:input|output" / "notification:<name>"; module trees at "module:<name>"
-	Via string `json:"via"` // which accessor reached it: "set" (merged tree of the model set), "module", "rpc", "notification"
+	Path []string `json:"path"`
 }
 
 func kindOf(n interface{}) string {
@@ -275,52 +284,43 @@ func kindOf(n interface{}) string {
 	case *wModelSet:
 		return "modelset"
 	}
-	return ""
+	if sn, ok := n.(schema.Node); ok {
+		return "unwrapped-" + walkKind(sn)
+	}
+	return "unwrapped"
 }
 
-// schemaKids: the schema-level children of a node (choices and cases as nodes; data children that are
-// not lifted out of a choice).  Children() flattens choices; Choices() has the choice nodes.
-func schemaKids(n schema.Node) []schema.Node {
-	lifted := map[schema.Node]bool{}
-	var mark func(c schema.Node)
-	mark = func(c schema.Node) {
-		for _, k := range c.Children() {
-			lifted[k] = true
-		}
+func idOf(n interface{}) int {
+	if w, ok := n.(Wrapped); ok {
+		return w.WkID()
 	}
-	out := []schema.Node{}
-	for _, c := range n.Choices() {
-		mark(c)
-		out = append(out, c)
-	}
-	for _, k := range n.Children() {
-		if !lifted[k] {
-			out = append(out, k)
-		}
-	}
-	sort.SliceStable(out, func(i, j int) bool { return out[i].Name() < out[j].Name() })
-	return out
+	return 0
 }
 
-func place(n schema.Node, path []string, via string, out *[]Placed) {
-	for _, k := range schemaKids(n) {
-		p := append(append([]string{}, path...), k.Name())
-		if w, ok := k.(Wrapped); ok {
-			*out = append(*out, Placed{Id: w.WkID(), Kind: kindOf(k), Path: p, Via: via})
-		} else {
-			*out = append(*out, Placed{Id: 0, Kind: "unwrapped", Path: p, Via: via})
-		}
-		place(k, p, via, out)
+func cp(path []string, more ...string) []string {
+	return append(append([]string{}, path...), more...)
+}
+
+func place(n schema.Node, path []string, out *[]Placed) {
+	kids, _ := schemadump.SchemaChildren(n)
+	sort.SliceStable(kids, func(i, j int) bool { return kids[i].Name() < kids[j].Name() })
+	for _, k := range kids {
+		p := cp(path, k.Name())
+		*out = append(*out, Placed{Id: idOf(k), Kind: kindOf(k), Path: p})
+		place(k, p, out)
 	}
 }
 
-// Locate finds every wrapper reachable from the compiled model set through the public accessors.
-func Locate(ms schema.ModelSet) []Placed {
-	out := []Placed{}
-	if w, ok := ms.(Wrapped); ok {
-		out = append(out, Placed{Id: w.WkID(), Kind: "modelset", Path: []string{}, Via: "set"})
+// Locate finds every schema object reachable from the compiled model set through the public
+// accessors, module by module.  merged: the ids of the data nodes found through the model set's own
+// (merged) tree, for comparison with those found through the modules.
+func Locate(ms schema.ModelSet) (out []Placed, merged []int) {
+	out = append(out, Placed{Id: idOf(ms), Kind: kindOf(ms), Path: []string{}})
+	var viaSet []Placed
+	place(ms, []string{}, &viaSet)
+	for _, p := range viaSet {
+		merged = append(merged, p.Id)
 	}
-	place(ms, []string{}, "set", &out)
 	mods := []string{}
 	for name := range ms.Modules() {
 		mods = append(mods, name)
@@ -328,17 +328,9 @@ func Locate(ms schema.ModelSet) []Placed {
 	sort.Strings(mods)
 	for _, name := range mods {
 		m := ms.Modules()[name]
-		root := []string{"module:" + name}
-		if w, ok := m.(Wrapped); ok {
-			out = append(out, Placed{Id: w.WkID(), Kind: "model", Path: root, Via: "module"})
-		}
-		if wm, ok := m.(*wModel); ok {
-			// the tree a model was built from is the Tree embedded in it
-			if inner, ok2 := wm.Model.(interface{ WkID() int }); ok2 {
-				_ = inner
-			}
-		}
-		place(m, root, "module", &out)
+		root := []string{"m:" + name}
+		out = append(out, Placed{Id: idOf(m), Kind: kindOf(m), Path: root})
+		place(m, root, &out)
 		rn := []string{}
 		for r := range m.Rpcs() {
 			rn = append(rn, r)
@@ -346,20 +338,12 @@ func Locate(ms schema.ModelSet) []Placed {
 		sort.Strings(rn)
 		for _, r := range rn {
 			x := m.Rpcs()[r]
-			rr := []string{"rpc:" + r}
-			if w, ok := x.(Wrapped); ok {
-				out = append(out, Placed{Id: w.WkID(), Kind: "rpc", Path: rr, Via: "rpc"})
-			}
-			for _, io := range []struct {
-				n string
-				t schema.Tree
-			}{{"input", x.Input()}, {"output", x.Output()}} {
-				p := []string{"rpc:" + r + ":" + io.n}
-				if w, ok := io.t.(Wrapped); ok {
-					out = append(out, Placed{Id: w.WkID(), Kind: "tree", Path: p, Via: "rpc"})
-				}
-				place(io.t, p, "rpc", &out)
-			}
+			rp := cp(root, "rpc:", r)
+			out = append(out, Placed{Id: idOf(x), Kind: kindOf(x), Path: rp})
+			out = append(out, Placed{Id: idOf(x.Input()), Kind: kindOf(x.Input()), Path: cp(rp, "input")})
+			place(x.Input(), cp(rp, "input"), &out)
+			out = append(out, Placed{Id: idOf(x.Output()), Kind: kindOf(x.Output()), Path: cp(rp, "output")})
+			place(x.Output(), cp(rp, "output"), &out)
 		}
 		nn := []string{}
 		for r := range m.Notifications() {
@@ -368,15 +352,49 @@ func Locate(ms schema.ModelSet) []Placed {
 		sort.Strings(nn)
 		for _, r := range nn {
 			x := m.Notifications()[r]
-			p := []string{"notification:" + r}
-			if w, ok := x.(Wrapped); ok {
-				out = append(out, Placed{Id: w.WkID(), Kind: "notification", Path: p, Via: "notification"})
-			}
-			if w, ok := x.Schema().(Wrapped); ok {
-				out = append(out, Placed{Id: w.WkID(), Kind: "tree", Path: append(p, "tree"), Via: "notification"})
-			}
-			place(x.Schema(), p, "notification", &out)
+			np := cp(root, "notification:", r)
+			out = append(out, Placed{Id: idOf(x), Kind: kindOf(x), Path: np})
+			out = append(out, Placed{Id: idOf(x.Schema()), Kind: kindOf(x.Schema()), Path: np})
+			place(x.Schema(), np, &out)
 		}
+	}
+	return out, merged
+}
+
+// MustNode is the must expressions a node ended up with.
+type MustNode struct {
+	Path  []string `json:"path"`
+	Texts []string `json:"texts"`
+}
+
+func mustText(msg string) string {
+	const p = "'must' condition is false: '"
+	if strings.HasPrefix(msg, p) && strings.HasSuffix(msg, "'") {
+		return msg[len(p) : len(msg)-1]
+	}
+	return "msg:" + msg
+}
+
+func musts(n schema.Node, path []string, out *[]MustNode) {
+	kids, _ := schemadump.SchemaChildren(n)
+	for _, k := range kids {
+		p := cp(path, k.Name())
+		if ms := k.Musts(); len(ms) > 0 {
+			mn := MustNode{Path: p, Texts: []string{}}
+			for _, m := range ms {
+				mn.Texts = append(mn.Texts, mustText(m.ErrMsg))
+			}
+			*out = append(*out, mn)
+		}
+		musts(k, p, out)
+	}
+}
+
+// MustsOf lists the must expressions of the data nodes of every module.
+func MustsOf(ms schema.ModelSet) []MustNode {
+	out := []MustNode{}
+	for name, m := range ms.Modules() {
+		musts(m, []string{"m:" + name}, &out)
 	}
 	return out
 }
